@@ -5,7 +5,7 @@ set -u
 src=$1; name=$(basename $src)
 export GOFLAGS=-mod=mod GOPROXY=off GOSUMDB=off GOTOOLCHAIN=local
 wt=/tmp/confirm_$name
-base=$(cat /verif/seeded/BASE_COMMIT 2>/dev/null || echo 40dfd17)
+base=${BASE:-$(cat /verif/seeded/BASE_COMMIT 2>/dev/null || echo 40dfd17)}
 git -C /repo worktree add -q --detach $wt $base || exit 3
 cd $wt
 demo=$(cd $src && find . -name 'zz_seed_demo_test.go' | head -1)
